@@ -12,6 +12,7 @@ of the repeated-block messages — is well-formed, so the laws apply to every su
 -/
 namespace C08
 open Ubx Spec
+variable [KeyTable]
 
 /-- decidable form of well-formedness -/
 def wfb (t : Table) : Bool := t.all fun x => match x.2 with | .sint w => decide (0 < w) | _ => true
@@ -114,8 +115,12 @@ theorem valget_encode_after_decode (payload : List Nat) (hb : Bytes payload) (v 
           exact valget_reencode _ _ (fun b hbm => hb b (List.mem_of_mem_drop hbm)) its h4
 
 /-- non-vacuity: CFG-RATE-MEAS = 1000 (16 bit) with reserved key bits set, then a 1-bit item, then two stray bytes -/
-example : valgetCanon 20 [0x01, 0xF0, 0x21, 0xB0, 0xE8, 0x03, 0x1F, 0x00, 0x31, 0x10, 0x01, 0xAA, 0xBB]
+example : @valgetCanon publishedTable 20 [0x01, 0xF0, 0x21, 0xB0, 0xE8, 0x03, 0x1F, 0x00, 0x31, 0x10, 0x01, 0xAA, 0xBB]
     = [0x01, 0x00, 0x21, 0x30, 0xE8, 0x03, 0x1F, 0x00, 0x31, 0x10, 0x01] := by decide +kernel
+
+/-- …and with a table in which an application registered a signed 32-bit key of its own (0x40050006): the same law -/
+example : @valgetCanon ⟨(0x40050006, "CFG-TP-USER_DELAY_TP1", true) :: Gen.publishedKeys⟩ 20 [0x06, 0x00, 0x05, 0x40, 0xCE, 0xFF, 0xFF, 0xFF, 0x07]
+    = [0x06, 0x00, 0x05, 0x40, 0xCE, 0xFF, 0xFF, 0xFF] := by decide +kernel
 
 /-- **text fields, what decodes.** The bytes `CH.unpack` accepts are exactly the UTF-8 encodings (RFC 3629, `Spec/Utf8.lean`)
     of sequences of Unicode scalar values - no over-long forms, no surrogates, nothing above U+10FFFF, no cut sequence. -/
